@@ -653,6 +653,49 @@ func newUniverse(e *env, rng *lib.Rng, n int, kinds []int) *universe {
 
 func (u *universe) get(id int) *gtx { return u.txs[id-1] }
 
+// redecode returns the transaction as a node receives it from a peer: a
+// separately decoded object (serialize -> deserialize) with the same hash.
+// nil if this payload does not round-trip.
+func redecode(tx interfaces.Transaction) interfaces.Transaction {
+	buf := new(bytes.Buffer)
+	if err := tx.Serialize(buf); err != nil {
+		return nil
+	}
+	r := bytes.NewReader(buf.Bytes())
+	var cp interfaces.Transaction
+	panicked, _ := lib.Recover(func() {
+		t, err := functions.GetTransactionByBytes(r)
+		if err != nil {
+			return
+		}
+		if err := t.Deserialize(r); err != nil {
+			return
+		}
+		cp = t
+	})
+	if panicked || cp == nil || cp.Hash() != tx.Hash() || cp.GetSize() != tx.GetSize() {
+		return nil
+	}
+	cp.SetFee(tx.Fee())
+	return cp
+}
+
+var redecoded, redecodeFailed int
+
+// fresh is the same transaction as a different Go object (what a block or a
+// re-submission from the network carries): a new wrapper around a re-decoded
+// copy (around the original inner object if the payload does not round-trip).
+func (g *gtx) fresh() *vtx {
+	inner := redecode(g.tx.Transaction)
+	if inner == nil {
+		redecodeFailed++
+		inner = g.tx.Transaction
+	} else {
+		redecoded++
+	}
+	return &vtx{Transaction: inner, id: g.tx.id, budget: g.tx.budget, h: g.tx.h}
+}
+
 // allKeys: (slot name, key string) the tx claims, inputs included
 func (g *gtx) allClaims() []claim {
 	cs := append([]claim{}, g.claims...)
@@ -840,6 +883,22 @@ func (o *oracleCtx) check(u *universe, pool *mempool.TxPool, s *mempool.PoolSnap
 	}
 }
 
+// checkSize: the part of the property that also holds when the pre-checks of
+// appendToTxPool are skipped (hook histories): the fee list accounts for
+// exactly its entries and stays within the limit.
+func (o *oracleCtx) checkSize(s *mempool.PoolSnapshotVerif) {
+	var sum uint64
+	for _, it := range s.Fees {
+		sum += uint64(it.Size)
+	}
+	if s.TotalSize != sum {
+		o.fail("total-size", "totalSize differs from the sum of the fee list's entry sizes", map[string]interface{}{"total": s.TotalSize, "sum": sum})
+	}
+	if s.TotalSize > s.MaxSize {
+		o.fail("size-limit", "pool size exceeds the limit", map[string]interface{}{"total": s.TotalSize, "max": s.MaxSize})
+	}
+}
+
 // ---------------------------------------------------------------- histories
 
 func snapKey(op string, res int, s *mempool.PoolSnapshotVerif, u *universe) string {
@@ -906,6 +965,8 @@ func runStub(e *env, rng *lib.Rng, tbl *slotTable, st *lib.Stats, sh *lib.Shards
 		o.log = append(o.log, op)
 		if !hook {
 			o.check(u, pool, s, complete)
+		} else {
+			o.checkSize(s)
 		}
 		steps = append(steps, fmt.Sprintf("(%s, %s)", op, u.coqObs(res, s, tbl)))
 		jsteps = append(jsteps, map[string]interface{}{"op": op, "res": res, "pool": len(s.Txs), "total": s.TotalSize})
@@ -924,22 +985,26 @@ func runStub(e *env, rng *lib.Rng, tbl *slotTable, st *lib.Stats, sh *lib.Shards
 			if hook && (!g.refok || g.keyerr != "") {
 				continue // AppendTx would stop half way (unreachable after VerifyTx); not modelled
 			}
+			sub := g.tx
+			if rng.Chance(50) {
+				sub = g.fresh()
+			}
 			if hook {
-				panicked, _ := lib.Recover(func() { err = errOf(pool.ForceAddVerif(g.tx)) })
+				panicked, _ := lib.Recover(func() { err = errOf(pool.ForceAddVerif(sub)) })
 				if panicked {
 					res = 2
 				}
 			} else {
 				switch rng.Intn(3) {
 				case 0:
-					err = errOf(pool.AppendToTxPool(g.tx))
+					err = errOf(pool.AppendToTxPool(sub))
 				case 1:
-					err = pool.MaybeAcceptTransaction(g.tx)
+					err = pool.MaybeAcceptTransaction(sub)
 					if e2, ok := err.(elaerr.ELAError); ok && e2 == nil {
 						err = nil
 					}
 				default:
-					err = errOf(pool.AppendToTxPoolWithoutEvent(g.tx))
+					err = errOf(pool.AppendToTxPoolWithoutEvent(sub))
 				}
 			}
 			if err != nil && res == 0 {
@@ -958,11 +1023,11 @@ func runStub(e *env, rng *lib.Rng, tbl *slotTable, st *lib.Stats, sh *lib.Shards
 			if rng.Chance(15) {
 				g = u.txs[rng.Intn(len(u.txs))]
 			}
-			pool.ForceRemoveVerif(g.tx)
+			pool.ForceRemoveVerif(g.fresh())
 			emit(fmt.Sprintf("ORemoveApi %d", g.id), "force-remove", 0, true, true)
 		case c < 70: // RemoveTransaction
 			g := u.txs[rng.Intn(len(u.txs))]
-			pool.RemoveTransaction(g.tx)
+			pool.RemoveTransaction(g.fresh())
 			emit(fmt.Sprintf("ORemoveApi %d", g.id), "RemoveTransaction", 0, true, false)
 		case c < 90: // block connected + post-block cleanup
 			nb := 1 + rng.Intn(4)
@@ -981,7 +1046,7 @@ func runStub(e *env, rng *lib.Rng, tbl *slotTable, st *lib.Stats, sh *lib.Shards
 					continue
 				}
 				used[g.id] = true
-				blk = append(blk, g.tx)
+				blk = append(blk, g.fresh()) // a block carries separately decoded objects
 				ids = append(ids, g.id)
 			}
 			duty := rng.Intn(len(e.arbs))
@@ -1147,6 +1212,8 @@ func main() {
 	if os.Getenv("C34_NO_REAL") == "" {
 		runReal(rng.Fork(), tbl, st, sh, run, &id)
 	}
+	st.Extra["block_txs_redecoded"] = redecoded
+	st.Extra["block_txs_not_roundtripping"] = redecodeFailed
 	st.Traces = st.Evals
 	sh.Flush()
 	st.Write(run.Out)
